@@ -171,6 +171,11 @@ def searchParameters (env : Env) (g : Guards) (p : Node) : Outcome SearchParams 
         let cs ← controlsOf env g p
         pure ⟨baseDN, scope, deref, size, time, typesOnly, filter, attrs, cs⟩
 
+/-- the values loop of `packet.modifyParameters`: a constructed child is the SET OF values and
+    yields one BER-encoded element per value; anything else yields its `Data` -/
+def modValues (v : Node) : List Bytes :=
+  if v.constructed then v.kids.map ser else [v.data]
+
 /-- one element of the changes sequence in `packet.modifyParameters` -/
 def decodeChange (c : Node) : Outcome Change :=
   if !isKind c 0 true (some 16) then .err else do
@@ -181,7 +186,7 @@ def decodeChange (c : Node) : Outcome Change :=
   | some m => do
     let ty ← octetChild m modifyParameters_childModificationType
     if m.kids.length < modifyParameters_childModificationValues + 1 then .err else
-    pure ⟨op, ty, (m.kids.drop 1).map Node.data⟩
+    pure ⟨op, ty, (m.kids.drop 1).flatMap modValues⟩
 
 def decodeChanges : List Node → Outcome (List Change)
   | [] => .ok []
